@@ -31,7 +31,7 @@ func HarnessC19a() {
 		st.Store(vctx, name, b)
 		bad.Link = &name
 	}
-	switch verifChoose("perturb", 8) {
+	switch verifChoose("perturb", 9) {
 	case 0: // unknown node format
 		bad.NodeFormat = "v9.unknown"
 		mustReject, why = true, "unknown-format"
@@ -70,6 +70,22 @@ func HarnessC19a() {
 		cfg2.KeyCompare = func(a, b interface{}) (int, error) { return b.(symKey).Order(a.(symKey)), nil }
 		cfg = &cfg2
 		mustReject, why = true, "not-ascending-under-configured-order"
+	case 8: // loader's key order ties two adjacent top keys: not strictly ascending
+		if len(top.keys) < 2 {
+			verifAssume(false)
+		}
+		ti := verifChoose("tie", len(top.keys)-1)
+		ka, kb := top.keys[ti], top.keys[ti+1]
+		cfg2 := *cfg
+		cfg2.KeyCompare = func(a, b interface{}) (int, error) {
+			x, y := a.(symKey).id, b.(symKey).id
+			if verifOr(verifAnd(x == ka, y == kb), verifAnd(x == kb, y == ka)) {
+				return 0, nil
+			}
+			return a.(symKey).Order(b.(symKey)), nil
+		}
+		cfg = &cfg2
+		mustReject, why = true, "tie-under-configured-order"
 	case 7: // arbitrary bytes as top node: undecodable input must be rejected
 		L := verifChoose("len", verifBound("L")+1)
 		b := make([]byte, L)
